@@ -569,6 +569,12 @@ impl<'a, B: BitmapSlice> VolatileSlice<'a, B> {
     where
         T: ByteValued,
     {
+        // Zero-sized elements occupy no memory: there is nothing to copy (and nothing to
+        // divide the slice length by).
+        if size_of::<T>() == 0 {
+            return buf.len();
+        }
+
         // A fast path for u8/i8
         if size_of::<T>() == 1 {
             let total = buf.len().min(self.len());
@@ -648,6 +654,12 @@ impl<'a, B: BitmapSlice> VolatileSlice<'a, B> {
     where
         T: ByteValued,
     {
+        // Zero-sized elements occupy no memory: there is nothing to copy (and nothing to
+        // divide the slice length by).
+        if size_of::<T>() == 0 {
+            return;
+        }
+
         // A fast path for u8/i8
         if size_of::<T>() == 1 {
             let total = buf.len().min(self.len());
@@ -1183,6 +1195,12 @@ where
     /// }
     /// ```
     pub fn copy_to(&self, buf: &mut [T]) -> usize {
+        // Zero-sized elements occupy no memory: nothing to read, and `offset_from` below is not
+        // defined for them.
+        if size_of::<T>() == 0 {
+            return buf.len().min(self.len());
+        }
+
         // A fast path for u8/i8
         if size_of::<T>() == 1 {
             let source = self.to_slice();
